@@ -541,7 +541,9 @@ class Engine:
 
     def operand(self, body, fk, st, o):
         if o["k"] == "const": return self.const_term(o)
-        return self.read_place(body, fk, st, o["pl"])
+        v = self.read_place(body, fk, st, o["pl"])
+        if self.subst and v in self.subst: v = self.subst[v]     # per-key specialisation, also when read through a reference
+        return v
 
     # --------------------------------------------------------------------------------- places
     def resolve_place(self, body, fk, st, place):
@@ -860,6 +862,10 @@ class Engine:
                 return mk_bool({"lt": x < y, "le": x <= y, "gt": x > y, "ge": x >= y, "eq": x == y, "ne": x != y}[op])
             return ('op', op, 'bool', a, b)
         if ty is None: ty = opty
+        if ty is None:
+            # operands read through a projection (`*p op= c`): take the type from the operand terms
+            ty = term_ty(a) if is_const(a) or a[0] in ('op', 'un', 'cast') else None
+            if ty is None and (is_const(b) or b[0] in ('op', 'un', 'cast')) and op not in ("shl", "shr"): ty = term_ty(b)
         if is_const(a) and is_const(b):
             r = fold_bin(op, ty, a, b)
             if r is not None: return r
